@@ -3,6 +3,16 @@ type nat =
 | O
 | S of nat
 
+(** val fst : ('a1 * 'a2) -> 'a1 **)
+
+let fst = function
+| (x, _) -> x
+
+(** val snd : ('a1 * 'a2) -> 'a2 **)
+
+let snd = function
+| (_, y) -> y
+
 (** val length : 'a1 list -> nat **)
 
 let rec length = function
@@ -21,6 +31,13 @@ type comparison =
 | Lt
 | Gt
 
+(** val compOpp : comparison -> comparison **)
+
+let compOpp = function
+| Eq -> Eq
+| Lt -> Gt
+| Gt -> Lt
+
 module Coq__1 = struct
  (** val add : nat -> nat -> nat **)
  let rec add n0 m =
@@ -30,17 +47,39 @@ module Coq__1 = struct
 end
 include Coq__1
 
+(** val sub : nat -> nat -> nat **)
+
+let rec sub n0 m =
+  match n0 with
+  | O -> n0
+  | S k -> (match m with
+            | O -> n0
+            | S l -> sub k l)
+
+(** val rev : 'a1 list -> 'a1 list **)
+
+let rec rev = function
+| [] -> []
+| x :: l' -> app (rev l') (x :: [])
+
+(** val map : ('a1 -> 'a2) -> 'a1 list -> 'a2 list **)
+
+let rec map f = function
+| [] -> []
+| a :: t -> (f a) :: (map f t)
+
 (** val flat_map : ('a1 -> 'a2 list) -> 'a1 list -> 'a2 list **)
 
 let rec flat_map f = function
 | [] -> []
 | x :: t -> app (f x) (flat_map f t)
 
-(** val existsb : ('a1 -> bool) -> 'a1 list -> bool **)
+(** val fold_left : ('a1 -> 'a2 -> 'a1) -> 'a2 list -> 'a1 -> 'a1 **)
 
-let rec existsb f = function
-| [] -> false
-| a :: l0 -> (||) (f a) (existsb f l0)
+let rec fold_left f l a0 =
+  match l with
+  | [] -> a0
+  | b :: t -> fold_left f t (f a0 b)
 
 (** val firstn : nat -> 'a1 list -> 'a1 list **)
 
@@ -59,6 +98,18 @@ let rec skipn n0 l =
   | S n1 -> (match l with
              | [] -> []
              | _ :: l0 -> skipn n1 l0)
+
+(** val seq : nat -> nat -> nat list **)
+
+let rec seq start = function
+| O -> []
+| S len0 -> start :: (seq (S start) len0)
+
+(** val repeat : 'a1 -> nat -> 'a1 list **)
+
+let rec repeat x = function
+| O -> []
+| S k -> x :: (repeat x k)
 
 type positive =
 | XI of positive
@@ -263,6 +314,18 @@ module Coq_Pos =
 
 module N =
  struct
+  (** val succ_double : n -> n **)
+
+  let succ_double = function
+  | N0 -> Npos XH
+  | Npos p -> Npos (XI p)
+
+  (** val double : n -> n **)
+
+  let double = function
+  | N0 -> N0
+  | Npos p -> Npos (XO p)
+
   (** val add : n -> n -> n **)
 
   let add n0 m =
@@ -316,26 +379,50 @@ module N =
                  | N0 -> false
                  | Npos q -> Coq_Pos.eqb p q)
 
-  (** val ltb : n -> n -> bool **)
+  (** val leb : n -> n -> bool **)
 
-  let ltb x y =
+  let leb x y =
     match compare x y with
-    | Lt -> true
-    | _ -> false
+    | Gt -> false
+    | _ -> true
 
-  (** val min : n -> n -> n **)
+  (** val pos_div_eucl : positive -> n -> n * n **)
 
-  let min n0 n' =
-    match compare n0 n' with
-    | Gt -> n'
-    | _ -> n0
+  let rec pos_div_eucl a b =
+    match a with
+    | XI a' ->
+      let (q, r) = pos_div_eucl a' b in
+      let r' = succ_double r in
+      if leb b r' then ((succ_double q), (sub r' b)) else ((double q), r')
+    | XO a' ->
+      let (q, r) = pos_div_eucl a' b in
+      let r' = double r in
+      if leb b r' then ((succ_double q), (sub r' b)) else ((double q), r')
+    | XH ->
+      (match b with
+       | N0 -> (N0, (Npos XH))
+       | Npos p -> (match p with
+                    | XH -> ((Npos XH), N0)
+                    | _ -> (N0, (Npos XH))))
 
-  (** val max : n -> n -> n **)
+  (** val div_eucl : n -> n -> n * n **)
 
-  let max n0 n' =
-    match compare n0 n' with
-    | Gt -> n0
-    | _ -> n'
+  let div_eucl a b =
+    match a with
+    | N0 -> (N0, N0)
+    | Npos na -> (match b with
+                  | N0 -> (N0, a)
+                  | Npos _ -> pos_div_eucl na b)
+
+  (** val div : n -> n -> n **)
+
+  let div a b =
+    fst (div_eucl a b)
+
+  (** val modulo : n -> n -> n **)
+
+  let modulo a b =
+    snd (div_eucl a b)
 
   (** val to_nat : n -> nat **)
 
@@ -352,12 +439,120 @@ module N =
 
 module Z =
  struct
+  (** val double : z -> z **)
+
+  let double = function
+  | Z0 -> Z0
+  | Zpos p -> Zpos (XO p)
+  | Zneg p -> Zneg (XO p)
+
+  (** val succ_double : z -> z **)
+
+  let succ_double = function
+  | Z0 -> Zpos XH
+  | Zpos p -> Zpos (XI p)
+  | Zneg p -> Zneg (Coq_Pos.pred_double p)
+
+  (** val pred_double : z -> z **)
+
+  let pred_double = function
+  | Z0 -> Zneg XH
+  | Zpos p -> Zpos (Coq_Pos.pred_double p)
+  | Zneg p -> Zneg (XI p)
+
+  (** val pos_sub : positive -> positive -> z **)
+
+  let rec pos_sub x y =
+    match x with
+    | XI p ->
+      (match y with
+       | XI q -> double (pos_sub p q)
+       | XO q -> succ_double (pos_sub p q)
+       | XH -> Zpos (XO p))
+    | XO p ->
+      (match y with
+       | XI q -> pred_double (pos_sub p q)
+       | XO q -> double (pos_sub p q)
+       | XH -> Zpos (Coq_Pos.pred_double p))
+    | XH ->
+      (match y with
+       | XI q -> Zneg (XO q)
+       | XO q -> Zneg (Coq_Pos.pred_double q)
+       | XH -> Z0)
+
+  (** val add : z -> z -> z **)
+
+  let add x y =
+    match x with
+    | Z0 -> y
+    | Zpos x' ->
+      (match y with
+       | Z0 -> x
+       | Zpos y' -> Zpos (Coq_Pos.add x' y')
+       | Zneg y' -> pos_sub x' y')
+    | Zneg x' ->
+      (match y with
+       | Z0 -> x
+       | Zpos y' -> pos_sub y' x'
+       | Zneg y' -> Zneg (Coq_Pos.add x' y'))
+
   (** val opp : z -> z **)
 
   let opp = function
   | Z0 -> Z0
   | Zpos x0 -> Zneg x0
   | Zneg x0 -> Zpos x0
+
+  (** val sub : z -> z -> z **)
+
+  let sub m n0 =
+    add m (opp n0)
+
+  (** val mul : z -> z -> z **)
+
+  let mul x y =
+    match x with
+    | Z0 -> Z0
+    | Zpos x' ->
+      (match y with
+       | Z0 -> Z0
+       | Zpos y' -> Zpos (Coq_Pos.mul x' y')
+       | Zneg y' -> Zneg (Coq_Pos.mul x' y'))
+    | Zneg x' ->
+      (match y with
+       | Z0 -> Z0
+       | Zpos y' -> Zneg (Coq_Pos.mul x' y')
+       | Zneg y' -> Zpos (Coq_Pos.mul x' y'))
+
+  (** val compare : z -> z -> comparison **)
+
+  let compare x y =
+    match x with
+    | Z0 -> (match y with
+             | Z0 -> Eq
+             | Zpos _ -> Lt
+             | Zneg _ -> Gt)
+    | Zpos x' -> (match y with
+                  | Zpos y' -> Coq_Pos.compare x' y'
+                  | _ -> Gt)
+    | Zneg x' ->
+      (match y with
+       | Zneg y' -> compOpp (Coq_Pos.compare x' y')
+       | _ -> Lt)
+
+  (** val leb : z -> z -> bool **)
+
+  let leb x y =
+    match compare x y with
+    | Gt -> false
+    | _ -> true
+
+  (** val ltb : z -> z -> bool **)
+
+  let ltb x y =
+    match compare x y with
+    | Lt -> true
+    | _ -> false
 
   (** val eqb : z -> z -> bool **)
 
@@ -396,703 +591,227 @@ module Z =
   let of_N = function
   | N0 -> Z0
   | Npos p -> Zpos p
+
+  (** val pos_div_eucl : positive -> z -> z * z **)
+
+  let rec pos_div_eucl a b =
+    match a with
+    | XI a' ->
+      let (q, r) = pos_div_eucl a' b in
+      let r' = add (mul (Zpos (XO XH)) r) (Zpos XH) in
+      if ltb r' b
+      then ((mul (Zpos (XO XH)) q), r')
+      else ((add (mul (Zpos (XO XH)) q) (Zpos XH)), (sub r' b))
+    | XO a' ->
+      let (q, r) = pos_div_eucl a' b in
+      let r' = mul (Zpos (XO XH)) r in
+      if ltb r' b
+      then ((mul (Zpos (XO XH)) q), r')
+      else ((add (mul (Zpos (XO XH)) q) (Zpos XH)), (sub r' b))
+    | XH -> if leb (Zpos (XO XH)) b then (Z0, (Zpos XH)) else ((Zpos XH), Z0)
+
+  (** val div_eucl : z -> z -> z * z **)
+
+  let div_eucl a b =
+    match a with
+    | Z0 -> (Z0, Z0)
+    | Zpos a' ->
+      (match b with
+       | Z0 -> (Z0, a)
+       | Zpos _ -> pos_div_eucl a' b
+       | Zneg b' ->
+         let (q, r) = pos_div_eucl a' (Zpos b') in
+         (match r with
+          | Z0 -> ((opp q), Z0)
+          | _ -> ((opp (add q (Zpos XH))), (add b r))))
+    | Zneg a' ->
+      (match b with
+       | Z0 -> (Z0, a)
+       | Zpos _ ->
+         let (q, r) = pos_div_eucl a' b in
+         (match r with
+          | Z0 -> ((opp q), Z0)
+          | _ -> ((opp (add q (Zpos XH))), (sub b r)))
+       | Zneg b' -> let (q, r) = pos_div_eucl a' (Zpos b') in (q, (opp r)))
+
+  (** val modulo : z -> z -> z **)
+
+  let modulo a b =
+    let (_, r) = div_eucl a b in r
  end
 
-(** val kMagicSize : n **)
+(** val split_at : z -> z list -> z list -> z list list * z list **)
 
-let kMagicSize =
-  Npos (XO (XI XH))
+let rec split_at d bs cur =
+  match bs with
+  | [] -> ([], (rev cur))
+  | b :: r ->
+    if Z.eqb b d
+    then let (rs, t) = split_at d r [] in (((rev cur) :: rs), t)
+    else split_at d r (b :: cur)
 
-(** val kInputBuffer : n **)
+(** val strip_cr : z list -> z list **)
 
-let kInputBuffer =
-  Npos (XO (XO (XO (XO (XO (XO (XO (XO (XO (XO (XO (XO (XO (XO
-    XH))))))))))))))
+let strip_cr l =
+  match rev l with
+  | [] -> l
+  | z0 :: r ->
+    (match z0 with
+     | Zpos p ->
+       (match p with
+        | XI p0 ->
+          (match p0 with
+           | XO p1 ->
+             (match p1 with
+              | XI p2 -> (match p2 with
+                          | XH -> rev r
+                          | _ -> l)
+              | _ -> l)
+           | _ -> l)
+        | _ -> l)
+     | _ -> l)
 
-(** val gz_kMinOutput : n **)
+(** val records : z -> bool -> z list -> z list list **)
 
-let gz_kMinOutput =
-  Npos (XO (XI XH))
+let records d cr bs =
+  let (rs, t) = split_at d bs [] in
+  app (map (if cr then strip_cr else (fun x -> x)) rs)
+    (match t with
+     | [] -> []
+     | _ :: _ -> t :: [])
 
-(** val bz_kMinOutput : n **)
+(** val unrecords : z -> z list list -> z list **)
 
-let bz_kMinOutput =
-  Npos XH
+let unrecords d rs =
+  flat_map (fun r -> app r (d :: [])) rs
 
-(** val compressed_buffer : n **)
+(** val shard_seed : n **)
 
-let compressed_buffer =
-  Npos (XO (XO (XO (XO (XO (XO (XO (XO (XO (XO (XO (XO XH))))))))))))
+let shard_seed =
+  Npos (XI (XO (XO (XI (XO (XO (XI (XO (XO (XI (XI (XO (XI (XI (XO (XI (XI
+    (XO (XI (XO (XI (XI (XI (XI (XO (XO (XI (XI (XO (XO (XI (XI (XO (XO (XI
+    (XO (XO (XO (XO (XI (XI (XI (XO (XI (XO
+    XH)))))))))))))))))))))))))))))))))))))))))))))
 
-(** val kSizeMax : n **)
+(** val kBlockSize : n **)
 
-let kSizeMax =
-  Npos (XI (XI (XI (XI (XI (XI (XI (XI (XI (XI (XI (XI (XI (XI (XI (XI (XI
-    (XI (XI (XI (XI (XI (XI (XI (XI (XI (XI (XI (XI (XI (XI
-    XH)))))))))))))))))))))))))))))))
+let kBlockSize =
+  Npos (XO (XO (XO (XO (XO (XO (XO (XO (XO (XO (XO (XO (XO XH)))))))))))))
 
-(** val gzc_initial : n **)
+(** val shard_strip_cr : bool **)
 
-let gzc_initial =
-  Npos (XO (XO (XO (XO (XO (XO (XO (XO (XO (XO (XO (XO XH))))))))))))
-
-(** val gzc_increment : n **)
-
-let gzc_increment =
-  Npos (XO (XO (XO (XO (XO (XO (XO (XO (XO (XO (XO (XO XH))))))))))))
-
-(** val dirty_initial : bool **)
-
-let dirty_initial =
+let shard_strip_cr =
   true
 
-(** val bz_read_stall_check : bool **)
+(** val index : (z list -> n) -> n -> z list -> n **)
 
-let bz_read_stall_check =
-  true
+let index keyhash n0 line =
+  N.modulo (keyhash line) n0
 
-(** val gz_magic : z list **)
+(** val update : 'a1 list -> nat -> ('a1 -> 'a1) -> 'a1 list **)
 
-let gz_magic =
-  (Zpos (XI (XI (XI (XI XH))))) :: ((Zpos (XI (XI (XO (XI (XO (XO (XO
-    XH)))))))) :: [])
+let rec update l i f =
+  match l with
+  | [] -> []
+  | x :: r -> (match i with
+               | O -> (f x) :: r
+               | S j -> x :: (update r j f))
 
-(** val bz_magic : z list **)
+(** val shard_step :
+    (z list -> n) -> n -> z list list list -> z list -> z list list list **)
 
-let bz_magic =
-  (Zpos (XO (XI (XO (XO (XO (XO XH))))))) :: ((Zpos (XO (XI (XO (XI (XI (XO
-    XH))))))) :: ((Zpos (XO (XO (XO (XI (XO (XI XH))))))) :: []))
+let shard_step keyhash n0 outs line =
+  update outs (N.to_nat (index keyhash n0 line)) (fun o -> app o (line :: []))
 
-(** val xz_magic : z list **)
+(** val shard : (z list -> n) -> n -> z list list -> z list list list **)
 
-let xz_magic =
-  (Zpos (XI (XO (XI (XI (XI (XI (XI XH)))))))) :: ((Zpos (XI (XI (XI (XO (XI
-    XH)))))) :: ((Zpos (XO (XI (XO (XI (XI (XI XH))))))) :: ((Zpos (XO (XO
-    (XO (XI (XI (XO XH))))))) :: ((Zpos (XO (XI (XO (XI (XI (XO
-    XH))))))) :: (Z0 :: [])))))
+let shard keyhash n0 ls =
+  fold_left (shard_step keyhash n0) ls (repeat [] (N.to_nat n0))
 
-(** val bZ_FINISH : z **)
+(** val shard_bytes : z list list -> z list **)
 
-let bZ_FINISH =
-  Zpos (XO XH)
+let shard_bytes lines =
+  unrecords (Zpos (XO (XI (XO XH)))) lines
 
-(** val bZ_RUN : z **)
+(** val shard_tool : (z list -> n) -> n -> z list -> z list list **)
 
-let bZ_RUN =
-  Z0
+let shard_tool keyhash n0 input =
+  map shard_bytes
+    (shard keyhash n0 (records (Zpos (XO (XI (XO XH)))) shard_strip_cr input))
 
-(** val bZ_STREAM_END : z **)
+(** val chunks : nat -> nat -> z list -> z list list **)
 
-let bZ_STREAM_END =
-  Zpos (XO (XO XH))
-
-(** val lZMA_FINISH : z **)
-
-let lZMA_FINISH =
-  Zpos (XI XH)
-
-(** val lZMA_RUN : z **)
-
-let lZMA_RUN =
-  Z0
-
-(** val lZMA_STREAM_END : z **)
-
-let lZMA_STREAM_END =
-  Zpos XH
-
-(** val z_FINISH : z **)
-
-let z_FINISH =
-  Zpos (XO (XO XH))
-
-(** val z_NO_FLUSH : z **)
-
-let z_NO_FLUSH =
-  Z0
-
-(** val z_OK : z **)
-
-let z_OK =
-  Z0
-
-(** val gz_read_continue : z list **)
-
-let gz_read_continue =
-  Z0 :: []
-
-(** val gz_read_end : z list **)
-
-let gz_read_end =
-  (Zpos XH) :: []
-
-(** val gz_finish_done : z list **)
-
-let gz_finish_done =
-  (Zpos XH) :: []
-
-(** val gz_finish_again : z list **)
-
-let gz_finish_again =
-  Z0 :: ((Zneg (XI (XO XH))) :: [])
-
-(** val bz_fine : z list **)
-
-let bz_fine =
-  Z0 :: ((Zpos XH) :: [])
-
-(** val bz_finish_done : z list **)
-
-let bz_finish_done =
-  (Zpos (XO (XO XH))) :: []
-
-(** val bz_finish_again : z list **)
-
-let bz_finish_again =
-  (Zpos (XI XH)) :: []
-
-(** val xz_fine : z list **)
-
-let xz_fine =
-  Z0 :: []
-
-(** val len : 'a1 list -> n **)
-
-let len l =
-  N.of_nat (length l)
-
-(** val takeN : n -> 'a1 list -> 'a1 list **)
-
-let takeN n0 l =
-  firstn (N.to_nat n0) l
-
-(** val dropN : n -> 'a1 list -> 'a1 list **)
-
-let dropN n0 l =
-  skipn (N.to_nat n0) l
-
-(** val is_nil : 'a1 list -> bool **)
-
-let is_nil = function
-| [] -> true
-| _ :: _ -> false
-
-type kind =
-| KGz
-| KBz
-| KXz
-
-(** val mem : z -> z list -> bool **)
-
-let mem x l =
-  existsb (Z.eqb x) l
-
-(** val starts_with : z list -> z list -> bool **)
-
-let rec starts_with p l =
-  match p with
-  | [] -> true
-  | a :: p' ->
-    (match l with
-     | [] -> false
-     | b :: l' -> (&&) (Z.eqb a b) (starts_with p' l'))
-
-(** val detect_magic : z list -> kind option **)
-
-let detect_magic h =
-  if starts_with gz_magic h
-  then Some KGz
-  else if starts_with bz_magic h
-       then Some KBz
-       else if starts_with xz_magic h then Some KXz else None
-
-type frags = z list list
-
-(** val partial_read : frags -> n -> z list * frags **)
-
-let rec partial_read f n0 =
-  match f with
-  | [] -> ([], [])
-  | fr :: r ->
-    (match fr with
-     | [] -> partial_read r n0
-     | _ :: _ ->
-       if N.ltb n0 (len fr)
-       then ((takeN n0 fr), ((dropN n0 fr) :: r))
-       else (fr, r))
-
-(** val read_or_eof_loop : nat -> frags -> n -> z list * frags **)
-
-let rec read_or_eof_loop fuel f n0 =
+let rec chunks fuel size bs =
   match fuel with
-  | O -> ([], f)
-  | S k ->
-    if N.eqb n0 N0
-    then ([], f)
-    else let (got, f') = partial_read f n0 in
-         (match got with
-          | [] -> ([], f')
-          | _ :: _ ->
-            let (more, f'') = read_or_eof_loop k f' (N.sub n0 (len got)) in
-            ((app got more), f''))
-
-(** val read_or_eof : frags -> n -> z list * frags **)
-
-let read_or_eof f n0 =
-  read_or_eof_loop (N.to_nat n0) f n0
-
-type 's cres = { c_st : 's; c_used : n; c_out : z list; c_rc : z }
-
-type pstep =
-| PContinue
-| PEnd
-| PThrow
-
-(** val process_read : kind -> z -> bool -> bool -> pstep **)
-
-let process_read k rc no_input no_output =
-  match k with
-  | KGz ->
-    if mem rc gz_read_continue
-    then PContinue
-    else if mem rc gz_read_end then PEnd else PThrow
-  | KBz ->
-    if Z.eqb rc bZ_STREAM_END
-    then PEnd
-    else if mem rc bz_fine
-         then if (&&) ((&&) bz_read_stall_check no_input) no_output
-              then PThrow
-              else PContinue
-         else PThrow
-  | KXz ->
-    if Z.eqb rc lZMA_STREAM_END
-    then PEnd
-    else if mem rc xz_fine then PContinue else PThrow
-
-(** val read_action : kind -> bool -> z **)
-
-let read_action k fin =
-  match k with
-  | KXz -> if fin then lZMA_FINISH else lZMA_RUN
-  | _ -> Z0
-
-type rerr =
-| EGz
-| EBz
-| EXz
-| ECompressed
-| EHang
-
-(** val err_of : kind -> rerr **)
-
-let err_of = function
-| KGz -> EGz
-| KBz -> EBz
-| KXz -> EXz
-
-type 'dstate reader =
-| RComplete
-| RPlain
-| RHeader of z list
-| RStream of kind * 'dstate * z list * bool
-
-type ('world, 'dstate) rstate = { r_file : frags; r_world : 'world;
-                                  r_rd : 'dstate reader }
-
-type ('world, 'dstate) rres =
-| ROk of z list * ('world, 'dstate) rstate
-| RErr of rerr
-
-(** val read_factory :
-    ('a1 -> kind -> 'a2 * 'a1) -> frags -> 'a1 -> z list -> bool -> (('a2
-    reader * frags) * 'a1) option **)
-
-let read_factory dnew f w already require =
-  if N.ltb (len already) kMagicSize
-  then let (got, f') = read_or_eof f (N.sub kMagicSize (len already)) in
-       let header = app already got in
-       (match header with
-        | [] -> Some ((RComplete, f'), w)
-        | _ :: _ ->
-          (match detect_magic header with
-           | Some k ->
-             let (st, w') = dnew w k in
-             Some (((RStream (k, st, header, false)), f'), w')
-           | None ->
-             if require then None else Some (((RHeader header), f'), w)))
-  else (match already with
-        | [] -> Some ((RComplete, f), w)
-        | _ :: _ ->
-          (match detect_magic already with
-           | Some k ->
-             let (st, w') = dnew w k in
-             Some (((RStream (k, st, already, false)), f), w')
-           | None ->
-             if require then None else Some (((RHeader already), f), w)))
-
-(** val rd :
-    ('a1 -> kind -> 'a2 * 'a1) -> (kind -> 'a2 -> z -> z list -> n -> 'a2
-    cres) -> nat -> ('a1, 'a2) rstate -> n -> ('a1, 'a2) rres **)
-
-let rec rd dnew dcall fuel s amount =
-  match s.r_rd with
-  | RComplete -> ROk ([], s)
-  | RPlain ->
-    let (got, f') = partial_read s.r_file amount in
-    ROk (got, { r_file = f'; r_world = s.r_world; r_rd = RPlain })
-  | RHeader buf ->
-    let sending = N.min amount (len buf) in
-    let rest = dropN sending buf in
-    ROk ((takeN sending buf), { r_file = s.r_file; r_world = s.r_world;
-    r_rd = (match rest with
-            | [] -> RPlain
-            | _ :: _ -> RHeader rest) })
-  | RStream (k, st, inbuf, fin) ->
-    if N.eqb amount N0
-    then ROk ([], s)
-    else (match fuel with
-          | O -> RErr EHang
-          | S fuel' ->
-            (match inbuf with
-             | [] ->
-               let (got, f') = read_or_eof s.r_file kInputBuffer in
-               let p = (got, f') in
-               let fin1 =
-                 (||) fin (match k with
-                           | KXz -> is_nil got
-                           | _ -> false)
-               in
-               let (inbuf1, f1) = p in
-               let cap =
-                 match k with
-                 | KXz -> amount
-                 | _ -> N.min kSizeMax amount
-               in
-               let r = dcall k st (read_action k fin1) inbuf1 cap in
-               let inbuf2 = dropN r.c_used inbuf1 in
-               let out = r.c_out in
-               (match process_read k r.c_rc (is_nil inbuf1) (is_nil out) with
-                | PContinue ->
-                  let s1 = { r_file = f1; r_world = s.r_world; r_rd =
-                    (RStream (k, r.c_st, inbuf2, fin1)) }
-                  in
-                  (match out with
-                   | [] -> rd dnew dcall fuel' s1 amount
-                   | _ :: _ -> ROk (out, s1))
-                | PEnd ->
-                  (match read_factory dnew f1 s.r_world inbuf2 true with
-                   | Some p0 ->
-                     let (p1, w2) = p0 in
-                     let (rdr, f2) = p1 in
-                     let s2 = { r_file = f2; r_world = w2; r_rd = rdr } in
-                     (match out with
-                      | [] -> rd dnew dcall fuel' s2 amount
-                      | _ :: _ -> ROk (out, s2))
-                   | None -> RErr ECompressed)
-                | PThrow -> RErr (err_of k))
-             | _ :: _ ->
-               let p = (inbuf, s.r_file) in
-               let (inbuf1, f1) = p in
-               let cap =
-                 match k with
-                 | KXz -> amount
-                 | _ -> N.min kSizeMax amount
-               in
-               let r = dcall k st (read_action k fin) inbuf1 cap in
-               let inbuf2 = dropN r.c_used inbuf1 in
-               let out = r.c_out in
-               (match process_read k r.c_rc (is_nil inbuf1) (is_nil out) with
-                | PContinue ->
-                  let s1 = { r_file = f1; r_world = s.r_world; r_rd =
-                    (RStream (k, r.c_st, inbuf2, fin)) }
-                  in
-                  (match out with
-                   | [] -> rd dnew dcall fuel' s1 amount
-                   | _ :: _ -> ROk (out, s1))
-                | PEnd ->
-                  (match read_factory dnew f1 s.r_world inbuf2 true with
-                   | Some p0 ->
-                     let (p1, w2) = p0 in
-                     let (rdr, f2) = p1 in
-                     let s2 = { r_file = f2; r_world = w2; r_rd = rdr } in
-                     (match out with
-                      | [] -> rd dnew dcall fuel' s2 amount
-                      | _ :: _ -> ROk (out, s2))
-                   | None -> RErr ECompressed)
-                | PThrow -> RErr (err_of k))))
-
-(** val rc_open :
-    ('a1 -> kind -> 'a2 * 'a1) -> frags -> 'a1 -> ('a1, 'a2) rstate option **)
-
-let rc_open dnew f w =
-  match read_factory dnew f w [] false with
-  | Some p ->
-    let (p0, w1) = p in
-    let (rdr, f1) = p0 in Some { r_file = f1; r_world = w1; r_rd = rdr }
-  | None -> None
-
-type allres =
-| AOk of z list * n list
-| AErr of rerr * z list * n list
-
-(** val read_all :
-    ('a1 -> kind -> 'a2 * 'a1) -> (kind -> 'a2 -> z -> z list -> n -> 'a2
-    cres) -> nat -> nat -> ('a1, 'a2) rstate -> (nat -> n) -> nat -> allres **)
-
-let rec read_all dnew dcall n0 fuel s amt i =
-  match n0 with
-  | O -> AErr (EHang, [], [])
-  | S n' ->
-    (match rd dnew dcall fuel s (amt i) with
-     | ROk (out, s') ->
-       (match out with
-        | [] -> AOk ([], (N0 :: []))
-        | _ :: _ ->
-          (match read_all dnew dcall n' fuel s' amt (S i) with
-           | AOk (d, z0) -> AOk ((app out d), ((len out) :: z0))
-           | AErr (e, d, z0) -> AErr (e, (app out d), ((len out) :: z0))))
-     | RErr e -> AErr (e, [], []))
-
-(** val read_file :
-    ('a1 -> kind -> 'a2 * 'a1) -> (kind -> 'a2 -> z -> z list -> n -> 'a2
-    cres) -> nat -> nat -> frags -> 'a1 -> (nat -> n) -> allres **)
-
-let read_file dnew dcall n0 fuel f w amt =
-  match rc_open dnew f w with
-  | Some s -> read_all dnew dcall n0 fuel s amt O
-  | None -> AErr (ECompressed, [], [])
-
-(** val min_output : kind -> n **)
-
-let min_output = function
-| KGz -> gz_kMinOutput
-| _ -> bz_kMinOutput
-
-(** val buf_size : kind -> n **)
-
-let buf_size k =
-  N.max (min_output k) compressed_buffer
-
-(** val run_flag : kind -> z **)
-
-let run_flag = function
-| KGz -> z_NO_FLUSH
-| _ -> bZ_RUN
-
-(** val finish_flag : kind -> z **)
-
-let finish_flag = function
-| KGz -> z_FINISH
-| _ -> bZ_FINISH
-
-(** val run_ok : kind -> z -> bool **)
-
-let run_ok k rc =
-  match k with
-  | KGz -> Z.eqb rc z_OK
-  | _ -> mem rc bz_fine
-
-type fstep =
-| FDone
-| FAgain
-| FThrow
-
-(** val finish_step : kind -> z -> fstep **)
-
-let finish_step k rc =
-  match k with
-  | KGz ->
-    if mem rc gz_finish_done
-    then FDone
-    else if mem rc gz_finish_again then FAgain else FThrow
-  | _ ->
-    if mem rc bz_finish_done
-    then FDone
-    else if mem rc bz_finish_again then FAgain else FThrow
-
-type wop =
-| OpWrite of z list
-| OpFlush
-
-(** val op_data : wop -> z list **)
-
-let op_data = function
-| OpWrite d -> d
-| OpFlush -> []
-
-type 'estate wstate = { w_file : z list; w_buf : z list; w_est : 'estate;
-                        w_dirty : bool }
-
-type 'estate wres =
-| WOk of 'estate wstate
-| WErr of bool
-
-(** val avail_out : kind -> 'a1 wstate -> n **)
-
-let avail_out k s =
-  N.sub (buf_size k) (len s.w_buf)
-
-(** val ensure_output : kind -> 'a1 wstate -> 'a1 wstate **)
-
-let ensure_output k s =
-  if N.ltb (avail_out k s) (min_output k)
-  then { w_file = (app s.w_file s.w_buf); w_buf = []; w_est = s.w_est;
-         w_dirty = s.w_dirty }
-  else s
-
-(** val write_loop :
-    (kind -> 'a1 -> z -> z list -> n -> 'a1 cres) -> nat -> kind -> 'a1
-    wstate -> z list -> 'a1 wres **)
-
-let rec write_loop ecall fuel k s inp = match inp with
-| [] -> WOk s
-| _ :: _ ->
-  (match fuel with
-   | O -> WErr true
-   | S f ->
-     let s1 = ensure_output k s in
-     let r = ecall k s1.w_est (run_flag k) inp (avail_out k s1) in
-     if run_ok k r.c_rc
-     then write_loop ecall f k { w_file = s1.w_file; w_buf =
-            (app s1.w_buf r.c_out); w_est = r.c_st; w_dirty = s1.w_dirty }
-            (dropN r.c_used inp)
-     else WErr false)
-
-(** val ws_write :
-    (kind -> 'a1 -> z -> z list -> n -> 'a1 cres) -> nat -> kind -> 'a1
-    wstate -> z list -> 'a1 wres **)
-
-let ws_write ecall fuel k s data =
-  match write_loop ecall fuel k s data with
-  | WOk s' ->
-    WOk { w_file = s'.w_file; w_buf = s'.w_buf; w_est = s'.w_est; w_dirty =
-      true }
-  | WErr hang -> WErr hang
-
-(** val flush_loop :
-    (kind -> 'a1 -> z -> z list -> n -> 'a1 cres) -> nat -> kind -> 'a1
-    wstate -> 'a1 wres **)
-
-let rec flush_loop ecall fuel k s =
-  match fuel with
-  | O -> WErr true
+  | O -> []
   | S f ->
-    let s1 = ensure_output k s in
-    let r = ecall k s1.w_est (finish_flag k) [] (avail_out k s1) in
-    let s2 = { w_file = s1.w_file; w_buf = (app s1.w_buf r.c_out); w_est =
-      r.c_st; w_dirty = s1.w_dirty }
-    in
-    (match finish_step k r.c_rc with
-     | FDone -> WOk s2
-     | FAgain -> flush_loop ecall f k s2
-     | FThrow -> WErr false)
+    (match bs with
+     | [] -> []
+     | _ :: _ -> (firstn size bs) :: (chunks f size (skipn size bs)))
 
-(** val ws_flush :
-    (kind -> 'a1 -> 'a1) -> (kind -> 'a1 -> z -> z list -> n -> 'a1 cres) ->
-    nat -> kind -> 'a1 wstate -> 'a1 wres **)
+(** val blocks : z list -> z list list **)
 
-let ws_flush ereset ecall fuel k s =
-  if s.w_dirty
-  then (match flush_loop ecall fuel k s with
-        | WOk s2 ->
-          WOk { w_file = (app s2.w_file s2.w_buf); w_buf = []; w_est =
-            (ereset k s2.w_est); w_dirty = false }
-        | WErr hang -> WErr hang)
-  else WOk s
+let blocks bs =
+  chunks (S (length bs)) (N.to_nat kBlockSize) bs
 
-(** val run_ops :
-    (kind -> 'a1 -> 'a1) -> (kind -> 'a1 -> z -> z list -> n -> 'a1 cres) ->
-    nat -> kind -> 'a1 wstate -> wop list -> 'a1 wres **)
+(** val digits_loop : nat -> n -> n -> n **)
 
-let rec run_ops ereset ecall fuel k s = function
-| [] -> WOk s
-| op :: r ->
-  (match match op with
-         | OpWrite d -> ws_write ecall fuel k s d
-         | OpFlush -> ws_flush ereset ecall fuel k s with
-   | WOk s' -> run_ops ereset ecall fuel k s' r
-   | WErr hang -> WErr hang)
-
-type fileres =
-| FileOk of z list
-| FileErr of bool
-
-(** val write_session :
-    ('a1 -> kind -> 'a2 * 'a1) -> (kind -> 'a2 -> 'a2) -> (kind -> 'a2 -> z
-    -> z list -> n -> 'a2 cres) -> nat -> kind -> 'a1 -> wop list -> fileres **)
-
-let write_session enew ereset ecall fuel k w ops =
-  let (est, _) = enew w k in
-  (match run_ops ereset ecall fuel k { w_file = []; w_buf = []; w_est = est;
-           w_dirty = dirty_initial } ops with
-   | WOk s ->
-     (match ws_flush ereset ecall fuel k s with
-      | WOk s' -> FileOk s'.w_file
-      | WErr h -> FileErr h)
-   | WErr h -> FileErr h)
-
-(** val gzc_ensure : z list -> n -> n **)
-
-let gzc_ensure out size =
-  if N.ltb (N.sub size (len out)) gz_kMinOutput
-  then N.add size gzc_increment
-  else size
-
-(** val gzc_pre :
-    (kind -> 'a1 -> z -> z list -> n -> 'a1 cres) -> nat -> 'a1 -> z list ->
-    z list -> n -> ((('a1 * z list) * z list) * n) option option **)
-
-let rec gzc_pre ecall fuel est inp out size =
-  if N.ltb (N.sub size (len out)) gz_kMinOutput
-  then (match fuel with
-        | O -> None
+let rec digits_loop fuel compare0 digits =
+  if N.eqb compare0 N0
+  then digits
+  else (match fuel with
+        | O -> digits
         | S f ->
-          let size1 = gzc_ensure out size in
-          let r =
-            ecall KGz est z_NO_FLUSH inp
-              (N.min kSizeMax (N.sub size1 (len out)))
-          in
-          if run_ok KGz r.c_rc
-          then gzc_pre ecall f r.c_st (dropN r.c_used inp) (app out r.c_out)
-                 size1
-          else Some None)
-  else Some (Some (((est, inp), out), size))
+          digits_loop f (N.div compare0 (Npos (XO (XI (XO XH)))))
+            (N.add digits (Npos XH)))
 
-(** val gzc_finish :
-    (kind -> 'a1 -> z -> z list -> n -> 'a1 cres) -> nat -> 'a1 -> z list ->
-    z list -> n -> fileres **)
+(** val u32N : z -> n **)
 
-let rec gzc_finish ecall fuel est inp out size =
+let u32N x =
+  Z.to_N
+    (Z.modulo x (Zpos (XO (XO (XO (XO (XO (XO (XO (XO (XO (XO (XO (XO (XO (XO
+      (XO (XO (XO (XO (XO (XO (XO (XO (XO (XO (XO (XO (XO (XO (XO (XO (XO (XO
+      XH))))))))))))))))))))))))))))))))))
+
+(** val digits_of : n -> n **)
+
+let digits_of number =
+  digits_loop (S (S (S (S (S (S (S (S (S (S (S (S (S (S (S (S (S (S (S (S (S
+    (S (S (S (S (S (S (S (S (S (S (S (S (S (S (S (S (S (S (S
+    O))))))))))))))))))))))))))))))))))))))))
+    (u32N (Z.sub (Z.of_N number) (Zpos XH))) N0
+
+(** val dec_loop : nat -> n -> z list -> z list **)
+
+let rec dec_loop fuel x acc =
   match fuel with
-  | O -> FileErr true
+  | O -> acc
   | S f ->
-    let size1 = gzc_ensure out size in
-    let r =
-      ecall KGz est z_FINISH inp (N.min kSizeMax (N.sub size1 (len out)))
+    let acc' =
+      (Z.add (Zpos (XO (XO (XO (XO (XI XH))))))
+        (Z.of_N (N.modulo x (Npos (XO (XI (XO XH))))))) :: acc
     in
-    (match finish_step KGz r.c_rc with
-     | FDone -> FileOk (app out r.c_out)
-     | FAgain ->
-       gzc_finish ecall f r.c_st (dropN r.c_used inp) (app out r.c_out) size1
-     | FThrow -> FileErr false)
+    if N.eqb (N.div x (Npos (XO (XI (XO XH))))) N0
+    then acc'
+    else dec_loop f (N.div x (Npos (XO (XI (XO XH))))) acc'
 
-(** val gz_compress :
-    ('a1 -> kind -> 'a2 * 'a1) -> (kind -> 'a2 -> z -> z list -> n -> 'a2
-    cres) -> nat -> 'a1 -> z list -> fileres **)
+(** val decimal : n -> z list **)
 
-let gz_compress enew ecall fuel w from =
-  let (est, _) = enew w KGz in
-  (match gzc_pre ecall fuel est from [] gzc_initial with
-   | Some o ->
-     (match o with
-      | Some p ->
-        let (p0, size1) = p in
-        let (p1, out1) = p0 in
-        let (est1, inp1) = p1 in gzc_finish ecall fuel est1 inp1 out1 size1
-      | None -> FileErr false)
-   | None -> FileErr true)
+let decimal x =
+  dec_loop (S (S (S (S (S (S (S (S (S (S (S (S (S (S (S (S (S (S (S (S (S (S
+    (S (S (S (S (S (S (S (S (S (S (S (S (S (S (S (S (S (S
+    O)))))))))))))))))))))))))))))))))))))))) x []
 
-(** val write_plain : wop list -> z list **)
+(** val pad : n -> n -> z list **)
 
-let write_plain ops =
-  flat_map op_data ops
+let pad width i =
+  let d = decimal i in
+  app
+    (repeat (Zpos (XO (XO (XO (XO (XI XH))))))
+      (sub (N.to_nat width) (length d))) d
+
+(** val names : z list -> n -> z list list **)
+
+let names prefix number =
+  map (fun i -> app prefix (pad (digits_of number) (N.of_nat i)))
+    (seq O (N.to_nat number))
